@@ -49,7 +49,7 @@ func Load(dir string, overlay map[string][]byte, patterns ...string) (*Program, 
 		Overrides:  map[string]string{},
 		funcByName: map[string]*ssa.Function{},
 		RepoPrefix: "github.com/goose-lang/goose",
-		InitAllow:  map[string]bool{"unicode/utf8": true, "strings": true, "bytes": true, "path": true, "strconv": true, "sort": true},
+		InitAllow:  map[string]bool{"unicode/utf8": true, "strings": true, "bytes": true, "path": true, "strconv": true, "sort": true, "io": true},
 	}
 	for k, v := range defaultIntrinsics {
 		p.Intrinsics[k] = v
